@@ -97,9 +97,21 @@ def akai_subject(rng, full: bool) -> Subject:
     return Subject("akai", {"x.img": img}, "x.img", "x.img", exp, needs, sorted(cuts), singles)
 
 
-def roland_subject(rng, full: bool) -> Subject:
-    disc = GR.random_disc(rng)
-    img, info = GR.serialize(disc, rng)
+def roland_targeted_disc(rng) -> "GR.Disc":
+    """forward, reverse one-shot, reverse loop and forward-release samples of 2-4 clusters each, one performance."""
+    W = GR.random_words
+    ss = {
+        0: GR.Sample("Fwd", W(rng, 3 * 4608), mode=2, freq=1),
+        1: GR.Sample("RevShot", W(rng, 4 * 4608), mode=5, freq=3),
+        2: GR.Sample("RevLoop", W(rng, 2 * 4608 + 777), start=100, sus_end=2 * 4608 + 500, mode=6, freq=0),
+        3: GR.Sample("Rel", W(rng, 3 * 4608), start=7, sus_end=5000, rel_end=3 * 4608 - 1, mode=1, freq=2),
+    }
+    return GR.Disc([GR.Volume("V", [0])], {0: GR.Performance("P", [0])}, {0: GR.Patch("Q", [0])}, {0: GR.Partial("R", [0, 1, 2, 3])}, ss)
+
+
+def roland_subject(rng, full: bool, targeted: bool = False) -> Subject:
+    disc = roland_targeted_disc(rng) if targeted else GR.random_disc(rng)
+    img, info = GR.serialize(disc, rng, ("head-not-lowest", "reversed", "random")) if targeted else GR.serialize(disc, rng)
     exp = {k: dict(channels=1, rate=v["rate"], pcm=v["pcm"]) for k, v in GR.expected_export(disc).items()}
     name_to_idx = {s.name: i for i, s in disc.samples.items()}
     needs = {}
@@ -239,14 +251,15 @@ def run(ctx, rep: Report, deep: bool = False):
         "(per channel source for a half pair), and every file whose bytes all lie before the cut is reported and complete; AKAI/Roland cut images also go through the Lean model (export + ls); distinct = (image, cut); non-trivial = every cut"
     )
     cases = []
-    plan = [("akai", akai_subject, ctx.n(3, 24), ctx.n(36, 400)), ("roland", roland_subject, ctx.n(1, 8), ctx.n(14, 120)), ("cdda", cdda_subject, ctx.n(3, 20), ctx.n(30, 200))]
+    plan = [("akai", akai_subject, ctx.n(3, 24), ctx.n(36, 400)), ("roland-targeted", (lambda r, f: roland_subject(r, f, True)), ctx.n(1, 4), ctx.n(30, 150)),
+            ("roland", roland_subject, ctx.n(1, 8), ctx.n(10, 120)), ("cdda", cdda_subject, ctx.n(3, 20), ctx.n(30, 200))]
     for kind, mk, nimg, ncuts in plan:
         for i in range(nimg):
             subj = mk(rng, full)
             if not subj.expected:
                 continue
             run_subject(rep, ctx, subj, cases, ncuts, True, f"{kind}{i}")
-            rep.feat("images_" + kind)
+            rep.feat("images_" + kind.split("-")[0])
     if ctx.model_available:
         bad = 0
         for op, res, ls, mres, mls in cases:
